@@ -41,7 +41,10 @@ theorem C16_code_internal_convert_table (e : Entry) (cbd ur : Bool) :
       match Gen.internalChoice e.status cbd with
       | .convertWithCtx => .convert ur true false (some (.obj e))
       | .doNotConvert => .doNotConvert
-      | .unspecifiedWrapper => .unspecified := by
+      | .unspecifiedWrapper => .unspecified
+      | .convertNullCtx => .convert ur true false none     -- not what the model describes: the captured context would
+      | .unresolved => .plain                              --   not be re-established (the theorem then fails to compile)
+      := by
   cases hs : e.status <;> cases cbd <;> simp [resolveInternal, hs, Gen.internalChoice]
 
 /-- Every piece of code the model describes still has the statement structure it describes: `stacks` is a
